@@ -1,4 +1,5 @@
-CONSTANTS BigSizes = {4095, 4096, 4097, 8191, 8192, 8193, 65537, 4194305}
+CONSTANTS BigSizes = {4095, 4096, 4097, 8191, 8192, 8193, 65537}
 TripleStride = 1
+HugeSizes = {4194305}
 INIT GenInit
 NEXT GenNext
